@@ -31,7 +31,12 @@ U_SCHEMA = [('k', T_INT), ('x', T_INT), ('y', T_STR), ('z', T_DEC), ('w', T_DATE
 
 def gen_u(rng):
     rows = []
+    few = rng.random() < 0.5      # few distinct values: many duplicates
     for r in range(rng.choice([0, 1, 3, 6, 9])):
+        if few and rows and rng.random() < 0.6:
+            prev = rng.choice(rows)
+            rows.append((r, *prev[1:]))
+            continue
         rows.append((r,
                      None if rng.random() < 0.15 else rng.choice(gen.POOL[T_INT]),
                      None if rng.random() < 0.15 else rng.choice(gen.POOL[T_STR]),
@@ -217,7 +222,13 @@ def run_in_case(ctx, rng, n, mon):
     sub = ir.Query(targets=[ir.Target(ir.col(cname, ctype))], table='u', where=sub_where)
     if rng.random() < 0.2:
         sub.distinct = True
-    if rng.random() < 0.2:
+    if rng.random() < 0.35:
+        # LIMIT (and ORDER BY) inside the IN sub-query; #u holds duplicate values, so DISTINCT/LIMIT order matters
+        sub.limit = rng.choice([0, 1, 2, 3, 4])
+        if rng.random() < 0.5:
+            sub.order_by = [ir.Key('expr', ir.col('k', T_INT), rng.choice([None, True]))]
+        ctx.count('obs.in_subquery_with_limit')
+    if rng.random() < 0.2 and sub.limit is None:
         # the sub-query itself reads from a sub-query
         sub = ir.Query(targets=[ir.Target(ir.col(cname, ctype))], subquery=ir.Query(targets=[ir.Target(ir.col(cname, ctype)), ir.Target(ir.col('k', T_INT))], table='u', where=sub_where))
     tcol = {T_INT: ['i', 'j'], T_STR: ['s', 't'], T_DEC: ['d', 'e'], T_DATE: ['dt', 'du']}[ctype]
@@ -307,6 +318,8 @@ def finalize(merged):
         reasons.append('no IN-sub-query case compared')
     if c.get('obs.star_cases', 0) == 0:
         reasons.append('no SELECT * FROM (q) case')
+    if c.get('obs.in_subquery_with_limit', 0) == 0:
+        reasons.append('no IN case with LIMIT inside the sub-query')
     if c.get('obs.in_empty_subquery', 0) == 0:
         reasons.append('no IN case with an empty sub-query result')
     return reasons
